@@ -183,7 +183,55 @@ func ops16(h *hist16) []op16 {
 	if _, ok := h.col.C.(proto.Inferable); ok {
 		ops = append(ops, op16{"infer-own-type", func(h *hist16) error { return h.col.C.(proto.Inferable).Infer(h.col.C.Type()) }})
 	}
+	if h.e.Label == "Enum8('a'=1,'b'=2,'c'=-3)" {
+		// the name-based enum column adopts another definition of the same names (the column
+		// is reused against a table whose enum numbers differ): the logical contents are the
+		// names, the wire numbers follow the definition in force
+		for _, def := range []string{"Enum8('a' = 10, 'b' = 20, 'c' = 30)", "Enum8('a' = 1, 'b' = 2, 'c' = -3)"} {
+			def := def
+			ops = append(ops, op16{"infer:" + def, func(h *hist16) error { return h.reinfer(def) }})
+		}
+	}
 	return ops
+}
+
+// reinfer makes the column adopt another definition and re-expresses the model (and the
+// decode payloads) in the numbers of that definition; alphabets of the two definitions
+// list the same names in the same order.
+func (h *hist16) reinfer(def string) error {
+	oldCanon := make([]any, len(h.alpha))
+	for i, v := range h.alpha {
+		oldCanon[i] = h.col.Canon(v)
+	}
+	if err := h.col.C.(proto.Inferable).Infer(proto.ColumnType(def)); err != nil {
+		return err
+	}
+	nc, err := reg.Wrap(h.col.C, h.e.Label)
+	if err != nil {
+		return err
+	}
+	h.col = nc
+	h.alpha = nc.Alphabet()
+	if len(h.alpha) != len(oldCanon) {
+		return fmt.Errorf("harness: alphabets of the two enum definitions differ in size")
+	}
+	remap := func(v any) any {
+		for i, o := range oldCanon {
+			if refcol.Equal([]any{o}, []any{v}) {
+				return nc.Canon(h.alpha[i])
+			}
+		}
+		return v
+	}
+	for i := range h.model {
+		h.model[i] = remap(h.model[i])
+	}
+	for _, d := range h.dec {
+		for i := range d {
+			d[i] = remap(d[i])
+		}
+	}
+	return nil
 }
 
 func newHist16(e reg.Entry, rev int) (*hist16, error) {
@@ -200,7 +248,7 @@ func newHist16(e reg.Entry, rev int) (*hist16, error) {
 
 // C16 — reused columns carry nothing over: reset+decode and re-encode are exact.
 func C16(c *vk.Ctx) {
-	c.Rule("explicit-state breadth-first search over operation histories on the real column object, for each of 21 compositions (thorough: every registry composition of depth <= 1): alphabet {Append of 3 different values, Reset, EncodeBlock (Prepare + state + data), WriteBlock+Flush, DecodeBlock of 0 / 2 / 3 rows holding other values (other dictionary; for LowCardinality also with keys written wider than necessary, which is valid on the wire), truncated DecodeBlock followed by Reset, Prepare where the column has it, Infer of its own type where inferable}; histories to depth 5 (thorough 6), a history is expanded only when the full-object fingerprint (every field, exported or not) together with the model state is new; successors are built by replaying the path on a fresh object. Oracle after every history: Rows()/Row(i) equal the list model, a fresh EncodeBlock decoded by the reference model equals the list model, and encoding twice gives the same bytes. states = distinct (object fingerprint, model) pairs; transitions = operations executed.")
+	c.Rule("explicit-state breadth-first search over operation histories on the real column object, for each of 21 compositions (thorough: every registry composition of depth <= 1): alphabet {Append of 3 different values, Reset, EncodeBlock (Prepare + state + data), WriteBlock+Flush, DecodeBlock of 0 / 2 / 3 rows holding other values (other dictionary; for LowCardinality also with keys written wider than necessary, which is valid on the wire), truncated DecodeBlock followed by Reset, Prepare where the column has it, Infer of its own type where inferable, and for the name-based enum column Infer of another definition of the same names (the model's numbers follow the definition in force)}; histories to depth 5 (thorough 6), a history is expanded only when the full-object fingerprint (every field, exported or not) together with the model state is new; successors are built by replaying the path on a fresh object. Oracle after every history: Rows()/Row(i) equal the list model, a fresh EncodeBlock decoded by the reference model equals the list model, and encoding twice gives the same bytes. states = distinct (object fingerprint, model) pairs; transitions = operations executed.")
 	depth := 5
 	if !c.Quick() {
 		depth = 6
